@@ -19,17 +19,17 @@ PROPS["C12"] = {
         "above 1e300 either +-inf or a finite value within the bound is accepted, below 1e-300 either +-0 or a value within the "
         "bound plus half a denormal ulp; the sign of a zero result is not examined",
         "as<float>() is judged with the same rules scaled to FLT_MIN/FLT_MAX, 1e-6 plus half a float ulp",
-        "string values are stored as owned strings (as<T>() on a linked string is a different property)",
+        "string values are stored both as owned (std::string) and as linked (const char*) strings",
         "default configuration (ARDUINOJSON_USE_DOUBLE=1, USE_LONG_LONG=1, 9/6 decimal places, thresholds 1e7 / 1e-5)",
     ],
     "quick": [
-        dict(_NX12, mode="parse", args=["--families=ac"], arduino=True),  # ARDUINOJSON_ENABLE_PROGMEM=1: tables read through pgm_read_*
-        dict(_NX12, mode="parse", args=["--families=acb"]),
+        dict(_NX12, mode="parse", args=["--families=acd"], arduino=True),  # ARDUINOJSON_ENABLE_PROGMEM=1: tables read through pgm_read_*
+        dict(_NX12, mode="parse", args=["--families=acdb"]),
         dict(_NX12, mode="print", args=["--families=ifgd"]),
     ],
     "thorough": [
-        dict(_NX12, mode="parse", args=["--families=acb"], arduino=True),
-        dict(_NX12, mode="parse", args=["--families=acb"]),
+        dict(_NX12, mode="parse", args=["--families=acdb"], arduino=True),
+        dict(_NX12, mode="parse", args=["--families=acdb"]),
         dict(_NX12, mode="print", args=["--families=ifgd"]),
         dict(_NX12, mode="print", args=["--families=FGD"], flavour="fast"),
     ],
